@@ -147,6 +147,16 @@ CLAIMED['C08'] = (
     'timestamps (compose side natively); RSA modulus 4 bytes (quick) / up to 6 (thorough); IDNA beyond ASCII outside',
     '5 C08')
 
+CLAIMED['C15'] = (
+    'against a JA3 implementation that walks the wire bytes itself: one symbolic dimension per shard over its code space '
+    '- protocol version, the cipher suite at each position (known, unknown, GREASE, SCSV), the type of an unparsed / '
+    'unknown / GREASE extension at each position, a supported group, a point format, with and without the groups / '
+    'point-format extensions - parse(b).ja3() equals the reference item by item and is unchanged by compose + parse; '
+    'hellos carrying every extension vector of the seed corpus are compared natively',
+    'S-str: str() of a symbolic int is an opaque token, the strings are compared item-wise as integers; quick tier '
+    'covers the code ranges holding SCSV, GREASE and common values plus a seed-rotated range (thorough: whole space); '
+    'extension bodies of types the library parses in detail come from the seed corpus (concrete)', '5 C15')
+
 NOT_APPLICABLE = {
     'C19': 'asymptotic claim (work linear in input size for n, 2n, 4n, ...): a bounded symbolic execution fixes the '
            'input size, so a pass says nothing about growth; the total-work bound needs an amortised argument over '
